@@ -188,8 +188,8 @@ def trace_real_frames(ctx, per, idx=None, salt=0):
     invs = ["Order", "Retain", "ConsumedOK", "NoFinishOnPrefix", "FinishedContent", "Bounded05"]
     write_cfg(cfg, spec="TSpec", constants=consts, invariants=invs, postcondition="Accepted")
     # a "new" event puts the specification into its initial condition whatever came before: long traces are validated in pieces
-    # cut there (one TLC run over 120 000 events took more than half an hour, pieces of 20 000 take a minute each)
-    ok, info, res = trace_validate_chunked(ctx, mod, cfg, trace, "tv_frame_decoder", lambda r: r.get("ev") == "new", max_events=20000, heap="-Xmx8g")
+    # cut there (one TLC run over 120 000 events took more than half an hour, the cost is per event, about 10 ms; pieces of 10 000, eight at a time)
+    ok, info, res = trace_validate_chunked(ctx, mod, cfg, trace, "tv_frame_decoder", lambda r: r.get("ev") == "new", max_events=10000, heap="-Xmx4g", parallel=8)
     ctx.traces += rj["runs"]
     ctx.evaluations += rj["events"]
     cov = {k: rj[k] for k in ("frames", "skipped_frames", "runs", "events", "modes", "truncated_runs", "runs_on_a_reused_decoder")}
